@@ -20,11 +20,47 @@ func monitor(rep *emit.Report, c *caseRun) {
 	epoch := 0
 	pendingTarget := int64(-1)
 	transitionTarget := int64(-1)
+	nEp := 1 // epochs that exist at the current step
+	expectPut := int64(-1)
+	addContrib := func(headBefore uint64, round int64, prev int64, idx int) {
+		// only rounds in the aggregator's window are cached
+		if round <= int64(headBefore) || round > int64(headBefore)+4 {
+			return
+		}
+		k := [2]int64{round, prev}
+		if contrib[k] == nil {
+			contrib[k] = map[int]bool{}
+		}
+		contrib[k][idx] = true
+		if len(contrib[k]) >= thr {
+			// the aggregator recovers, flushes every cached round up to this one, and appends the
+			// beacon if it is the successor of the head (built on the head's signature)
+			if round == int64(headBefore)+1 && prev == int64(headBefore) {
+				expectPut = round
+			}
+			for kk := range contrib {
+				if kk[0] <= round {
+					delete(contrib, kk)
+				}
+			}
+		}
+	}
 	for i, s := range c.steps {
+		expectPut = -1
 		in := map[string]interface{}{"case": c.desc, "step": i, "event": s.ev, "obs": s.obs}
 		if s.ev.Kind == "transition" {
 			pendingTarget = c.r.lastTarget
 			transitionTarget = c.r.lastTarget
+			nEp++
+		}
+		if s.ev.Kind == "stop" || s.ev.Kind == "restart" {
+			contrib = map[[2]int64]map[int]bool{} // the partial cache does not survive a restart
+			if s.ev.Kind == "restart" {
+				// the restarted process loads the latest group
+				epoch = nEp - 1
+				thr = w.Epochs[epoch].Thr
+				pendingTarget = -1
+			}
 		}
 		if s.ev.Kind == "part" && !s.obs.Rejected && s.obs.Valid {
 			idx, err := w.Sch.ThresholdScheme.IndexOf(c.t.bytes[c.t.id(nil)])
@@ -39,16 +75,14 @@ func monitor(rep *emit.Report, c *caseRun) {
 			if !e.Valid {
 				rep.Fail("C04-emission-invalid", "emitted partial does not verify under the node's own share", in)
 			}
-			k := [2]int64{int64(e.Round), e.Prev}
-			if contrib[k] == nil {
-				contrib[k] = map[int]bool{}
+			if e.Valid {
+				addContrib(s.obs.HeadBefore, int64(e.Round), e.Prev, w.Me)
 			}
-			contrib[k][w.Me] = true
 		}
 		// C07 / C03: once the last pre-transition round is stored only shares of the new group count:
 		// a partial that does not verify against the NEW group's polynomial must be refused
 		if s.ev.Kind == "part" && transitionTarget >= 0 && int64(s.obs.HeadBefore) >= transitionTarget && s.ev.Round > s.obs.HeadBefore {
-			newEp := w.Epochs[len(w.Epochs)-1]
+			newEp := w.Epochs[nEp-1]
 			okNew := w.Sch.ThresholdScheme.VerifyPartial(newEp.PubPoly, w.Digest(s.ev.Round, s.obs.PrevBytes), s.obs.SigBytes) == nil
 			cur := common.CurrentRound(s.obs.Now, per, w.Genesis)
 			if !okNew && !s.obs.Rejected && s.ev.Round <= cur+1 {
@@ -63,11 +97,7 @@ func monitor(rep *emit.Report, c *caseRun) {
 				rep.Fail("C04-future-partial-accepted", "partial more than one round ahead of the clock was not refused", in)
 			}
 			if !s.obs.Rejected && s.obs.Valid && s.ev.Claim < w.Epochs[epoch].N && s.ev.Claim != w.Me {
-				k := [2]int64{int64(s.ev.Round), c.t.id(c.r.prevBytes(s.ev.Prev, s.ev.Round))}
-				if contrib[k] == nil {
-					contrib[k] = map[int]bool{}
-				}
-				contrib[k][s.ev.Claim] = true
+				addContrib(s.obs.HeadBefore, int64(s.ev.Round), c.t.id(s.obs.PrevBytes), s.ev.Claim)
 			}
 		}
 		for _, p := range s.obs.Puts {
@@ -83,9 +113,18 @@ func monitor(rep *emit.Report, c *caseRun) {
 				lastRound = int64(p.Round)
 			}
 			if pendingTarget >= 0 && int64(p.Round) >= pendingTarget {
-				epoch = len(w.Epochs) - 1
+				epoch = nEp - 1
 				thr = w.Epochs[epoch].Thr
 				pendingTarget = -1
+				contrib = map[[2]int64]map[int]bool{} // partials verified under the old polynomial no longer count
+			}
+		}
+		// C05: once valid partials of a threshold of distinct live members (the node's own included)
+		// for the round after its head, on top of its head, have reached the node, it has stored that round
+		if expectPut >= 0 && int64(s.obs.Head) < expectPut && s.ev.Kind != "stop" {
+			rep.Fail("C05-threshold-of-partials-but-no-beacon", fmt.Sprintf("valid partials of a threshold (%d) of distinct live members for round %d on top of the head reached the node but the round was not stored", thr, expectPut), in)
+			if epoch > 0 {
+				rep.Fail("C07-new-group-threshold-but-round-halted", fmt.Sprintf("after the transition, valid partials of a threshold (%d) of the NEW group for round %d reached the node but the round was not produced", thr, expectPut), in)
 			}
 		}
 		_ = thr
